@@ -161,7 +161,7 @@ func (t BytesByteTuple) MustGet(name string) Value {
 // With returns a Tuple with all name/Value pairs in t (except the one for the
 // given name, if present) with the addition of the given name/Value pair.
 func (t BytesByteTuple) With(name string, value Value) Tuple {
-	return maybeNewBytesByteTupleFromTuple(t.asGenericTuple().With(name, value))
+	return t.asGenericTuple().With(name, value)
 }
 
 // Without returns a Tuple with all name/Value pairs in t exception the one of
